@@ -72,6 +72,11 @@ def make_scenario(case):
         assert kinds[0] == "combine" and all(k == "exp" for k in kinds[1:]) and all(tuple(d) == () for d in g[1:]), case
         insts = ", ".join('ExperimentInstance(name="t%d"%s)' % (i, ", parallelizable=True" if pars[i] else "") for i in g[0])
         files = {"COND": 'run_experiment_group(name="t0", run="./inst.sh", experiments=[%s])\n' % insts}
+    if case.get("with_include"):
+        # the root COND file include()s a settings file that computes something at load time
+        files = dict(files)
+        files["COND"] = 'include("defs.cond")\n' + files.get("COND", "")
+        files["defs.cond"] = "SETTINGS = {'sizes': [2 ** i for i in range(4)]}\nNAMES = sorted(SETTINGS)\n"
     beh = {}
     pre_tree = {}
     rows = []
